@@ -205,7 +205,9 @@ func vfModelDetect(read []byte, relay, tunnel, winEnv bool, hist *vfIDHistory) (
 	if vfTracked(t.ID, winEnv) {
 		for k := len(hist.recent) - 1; k >= 0; k-- {
 			if hist.recent[k] == t.ID {
-				if len(hist.recent)-1-k < 49 {
+				// the id memory is trimmed to its newer half when it exceeds 100 entries: at its smallest (right after a
+				// trim) it still holds the newest id and the 51 before it, so up to 51 newer distinct ids are always covered
+				if len(hist.recent)-1-k < 52 {
 					return 0, t, buf // repeated within the guaranteed memory
 				}
 				return -1, t, buf
@@ -532,6 +534,39 @@ func TestVF_C06(t *testing.T) {
 			c.Obs("id_repeats_generated", int64(repeats))
 			c.Nontrivial(fmt.Sprintf("hist#%d relay=%v repeats=%d", i, relay, repeats))
 		}})
+	}
+	// the boundary of the id memory: n fresh ids (the memory is trimmed when the 102nd, 153rd ... arrives), then a redraw of
+	// each of the 51 ids before the newest, newest first
+	for _, nfresh := range []int{60, 101, 102, 103, 152, 153, 154, 204} {
+		for _, relay := range []bool{false, true} {
+			nfresh, relay := nfresh, relay
+			cases = append(cases, vfCase{ID: fmt.Sprintf("%shistedge-%d-%v", tag, nfresh, relay), Run: func(c *vfCtx) {
+				det := newTrzszDetector(relay, relay)
+				hist := &vfIDHistory{}
+				var ids []string
+				feed := func(id string) bool {
+					read := fmt.Sprintf("\x1b7\x07::TRZSZ:TRANSFER:R:1.1.5:%s:0\r\n", id)
+					_, ok := vfCheckDetectorRead(c, det, hist, []byte(read), relay, false)
+					return ok
+				}
+				for k := 0; k < nfresh; k++ {
+					id := fmt.Sprintf("%011d%s", 70000000000+int64(k)*7919+int64(nfresh), []string{"20", "10"}[k%2])
+					ids = append(ids, id)
+					if !feed(id) {
+						c.Replay(map[string]interface{}{"fresh": nfresh, "relay": relay, "at": k})
+						return
+					}
+				}
+				for d := 0; d <= 51 && d < len(ids); d++ {
+					if !feed(ids[len(ids)-1-d]) {
+						c.Replay(map[string]interface{}{"fresh": nfresh, "relay": relay, "redraw_of_id_this_many_back": d})
+						return
+					}
+				}
+				c.Obs("id_history_boundary_redraws", 52)
+				c.Nontrivial(fmt.Sprintf("histedge fresh=%d relay=%v", nfresh, relay))
+			}})
+		}
 	}
 	// filter level: exactly one ACT per model-positive read, none per model-negative read
 	nf := vfPick(20, 200)
